@@ -196,6 +196,14 @@ class TypeState:
         self.P = M.P
         self.table = {}  # (func key, nones) -> FSum
         self.funcs = {f.key: f for f in M.ir_funcs()}
+        # a private module-level function of spydrnet/ir is code of the methods that call it (see pairing.Pairing): analysed spliced in
+        modfuns = {f.name for f in self.funcs.values() if f.cls is None and f.name.startswith("_") and not f.name.startswith("__")}
+        if modfuns:
+            from .inline import inlined_view
+            from .core import walk_local
+            for k, f in list(self.funcs.items()):
+                if f.cls is not None and any(isinstance(c, ast.Call) and isinstance(c.func, ast.Name) and c.func.id in modfuns for c in walk_local(f.node)):
+                    self.funcs[k] = inlined_view(self.P, f)
         self._run()
 
     def get(self, func, nones=frozenset()):
